@@ -148,3 +148,61 @@ func amplifyAPI(env *core.Env, in core.Case, tr core.Case, why string) []core.Ca
 	}
 	return res
 }
+
+// amplifyExplain: a solver created by a MUS method learned a clause that does not follow from its
+// clauses alone (it depends on the assumptions in force). Whether that changes the extracted MUS
+// depends on which clause is relaxed in a later call of the same solver, i.e. on the order of the
+// clauses: follow-ups are the same multiset of clauses in other orders (rotations, reversal, random
+// permutations, literals shuffled), each through the four methods on one shared Problem.
+func amplifyExplain(env *core.Env, in core.Case, tr core.Case, why string) []core.Case {
+	if in == nil || s(in, "drv") != "explain" || !strings.HasPrefix(why, "learned-clause-not-rup") {
+		return nil
+	}
+	var clauses [][]int
+	switch l := in["clauses"].(type) {
+	case [][]int:
+		clauses = l
+	default:
+		clauses = clauseList(in["clauses"])
+	}
+	if len(clauses) < 2 {
+		return nil
+	}
+	cp := func(cl [][]int) [][]int {
+		res := make([][]int, len(cl))
+		for i, c := range cl {
+			res[i] = append([]int{}, c...)
+		}
+		return res
+	}
+	var res []core.Case
+	add := func(cl [][]int) {
+		var ev []gen.M
+		for _, m := range []string{"MUS", "MUSDeletion", "MUSInsertion", "MUSMaxSat"} {
+			ev = append(ev, gen.M{"op": "mus", "method": m})
+		}
+		res = append(res, gen.M{"drv": "explain", "n": in["n"], "clauses": cl, "ev": ev, "wb": false})
+	}
+	for k := 1; k < len(clauses) && k <= 12; k++ {
+		rot := cp(clauses)
+		rot = append(rot[k:], rot[:k]...)
+		add(rot)
+	}
+	rev := cp(clauses)
+	for i, j := 0, len(rev)-1; i < j; i, j = i+1, j-1 {
+		rev[i], rev[j] = rev[j], rev[i]
+	}
+	add(rev)
+	r := env.Rand
+	for k := 0; k < 40; k++ {
+		p := cp(clauses)
+		r.Shuffle(len(p), func(i, j int) { p[i], p[j] = p[j], p[i] })
+		if k%2 == 1 {
+			for _, c := range p {
+				r.Shuffle(len(c), func(i, j int) { c[i], c[j] = c[j], c[i] })
+			}
+		}
+		add(p)
+	}
+	return res
+}
